@@ -87,7 +87,7 @@ def run_tlc(module, consts, invariants=(), name=None, workers=8, timeout=1800, e
         f.write(f"CHECK_DEADLOCK {'TRUE' if check_deadlock else 'FALSE'}\n")
         f.write(extra_cfg)
     out = os.path.join(d, f"{name}.out")
-    cmd = ["timeout", str(timeout), "tlc", "-workers", str(workers), "-metadir", os.path.join(d, "meta"),
+    cmd = ["timeout", "-k", "30", str(timeout), "tlc", "-workers", str(workers), "-metadir", os.path.join(d, "meta"),
            "-cleanup", "-noGenerateSpecTE", "-config", cfg]
     if simulate:
         cmd += ["-simulate", simulate]
@@ -100,7 +100,7 @@ def run_tlc(module, consts, invariants=(), name=None, workers=8, timeout=1800, e
     wall = time.time() - t0
     subprocess.run(["rm", "-rf", os.path.join(d, "meta")])
     txt_tail = subprocess.run(["grep", "-v", "-e", '^<<"', out], capture_output=True, text=True).stdout
-    if p.returncode == 124:
+    if p.returncode in (124, 137):
         raise ToolError(f"TLC timed out on {name}")
     m = re.search(r"(\d+) states generated, (\d+) distinct states found", txt_tail)
     violated = "is violated" in txt_tail or "Error:" in txt_tail
